@@ -91,6 +91,12 @@ class HostPool(object):
                     yield from self._condition.wait()
 
             self.busy.add(connection)
+        except asyncio.CancelledError:
+            # This waiter may already have been woken up for a free
+            # connection. Pass the wake-up on to the next waiter,
+            # otherwise it is lost and the others wait forever.
+            self._condition.notify()
+            raise
         finally:
             # Always release the lock, even if the waiter was cancelled.
             self._condition.release()
